@@ -86,7 +86,8 @@ pub fn generate(rng: &mut Rng, idx: usize, _tier: Tier) -> CaseOut {
             2 => {
                 let pat = "^[0-9]+$";
                 // the failing line may be the text that shares the start tag's line
-                let on_tag_line = matches!(start.form, Form::BlockOne) && rng.chance(1, 2);
+                // (after a multi-line comment the text follows the closer, on a later row than the tag)
+                let on_tag_line = matches!(start.form, Form::BlockOne | Form::BlockMulti { .. }) && rng.chance(1, 2);
                 let ls: Vec<String> = if on_tag_line {
                     start.trailing = format!(" {}", w("x9"));
                     tags.push("key-on-tag-line".into());
@@ -128,7 +129,7 @@ pub fn generate(rng: &mut Rng, idx: usize, _tier: Tier) -> CaseOut {
         tags.push(format!("rule:{}", ["sorted", "unique", "pattern", "count", "lua"][rule]));
         tags.push(format!("layout:{}", match start.form { Form::Line(_) => "line", Form::BlockOne => "block-one", Form::BlockMulti { after: 0, .. } => "tag-on-last-line", Form::BlockMulti { .. } => "comment-continues" }));
         let blk = GBlock { tag, start, end, end_tag: "</block>".into(), body: lines.into_iter().map(GNode::Text).collect() };
-        if md && matches!(blk.start.form, Form::BlockOne) && matches!(blk.end.form, Form::BlockOne) && rng.chance(1, 2) {
+        if md && matches!(blk.start.form, Form::BlockOne | Form::BlockMulti { .. }) && matches!(blk.end.form, Form::BlockOne) && rng.chance(1, 2) {
             tags.push("md-list-item".into());
             nodes.push(GNode::MdListItem(vec![GNode::Blk(blk)]));
         } else {
